@@ -13,7 +13,9 @@ def gen_history(rnd, n, maxops=6):
     ops = []
     for _ in range(rnd.randrange(1, maxops + 1)):
         r = rnd.random()
-        if r < 0.1:
+        if r < 0.03:
+            ops.append(("debug", rnd.choice([0, 1, 0])))  # asm_set_debug on/off: must not change anything about containment
+        elif r < 0.1:
             ops.append(("opt", rnd.choice(["mov", "swap", "nobase", "sib", "all"]), rnd.choice([0, 1, 2, 3])))
         elif r < 0.25:
             ops.append(("chunk", rnd.choice([0, 1, 2, 3, 5, 8, 13, 16, 32, 64, 100])))
@@ -67,6 +69,9 @@ def templates():
     T.append(lambda n: [("chunk", 16), ("cnt", 8, [13, 13]), ("asm", [13, 13, 13])])
     T.append(lambda n: [("setoff", n // 2), ("asm", [10] * (n // 20 + 2))])
     T.append(lambda n: [("opt", "all", 0), ("asm", [10] * (n // 10 + 1)), ("opt", "all", 1), ("asm", [10])])
+    T.append(lambda n: [("debug", 1), ("debug", 0), ("asm", [1] * (n + 5)), ("asm", [13])])
+    T.append(lambda n: [("debug", 0), ("chunk", 8), ("asm", [13] * (n // 8 + 2))])
+    T.append(lambda n: [("asm", [3] * 2), ("debug", 0), ("setoff", max(0, n - 19)), ("asm", [1]), ("cnt", 8, [13, 13])])
     while len(T) < 40:
         seed = fixed.randrange(1 << 30)
         T.append(lambda n, seed=seed: gen_history(random.Random(seed * 1000 + n), n))
@@ -78,6 +83,8 @@ def to_cmds(n, place, hist, fill="0xcc"):
     for op in hist:
         if op[0] == "opt":
             cmds.append("opt 0 %s %d" % (op[1], op[2]))
+        elif op[0] == "debug":
+            cmds.append("debug 0 %d" % op[1])
         elif op[0] == "chunk":
             cmds.append("chunk 0 %d" % op[1])
         elif op[0] == "setoff":
